@@ -281,6 +281,13 @@ var c15pred = Register("C15", "C15.predicates", func(a c15PredArgs) *Violation {
 		if d.IsInf(sg) != want {
 			return violf("%s: IsInf(%d) = %v, want %v", a.V, sg, d.IsInf(sg), want)
 		}
+		// the constructor: Inf(sign) is +Inf for sign >= 0 and -Inf for sign < 0, and the predicates agree
+		if i := d128.Inf(sg); !i.IsInf(0) || i.IsNaN() || i.Signbit() != (sg < 0) || !i.IsInf(sg) && sg != 0 {
+			return violf("Inf(%d) = %s", sg, DOf(i))
+		}
+	}
+	if i := d128.Inf(0); !i.IsInf(1) || i.Signbit() {
+		return violf("Inf(0) = %s, want +Inf", DOf(i))
 	}
 	if n.Class != ref.Finite || n.IsZero() {
 		st.NT(hashWords(a.V.Hi, a.V.Lo), func() any { return map[string]any{"bits": a.V.String()} })
